@@ -23,7 +23,7 @@ func concBatches(seed int64, tier core.Tier, prop string) []core.Batch {
 	workers := []int{1, 2, 3, 8, 32}
 	inch := []int{1, 4, 1024}
 	n := 0
-	reps := tierPick(tier, 1, 30)
+	reps := tierPick(tier, 2, 30)
 	for rep := 0; rep < reps; rep++ {
 		for _, w := range workers {
 			for _, ic := range inch {
